@@ -44,7 +44,7 @@ Section Prim.
     k <- group false (drawBits 53) ;;
     let n := geom bitlen k in
     let bl := if N.ltb n (N.of_nat bitlen) then N.to_nat n
-              else if N.leb (N.of_nat (over_thr bitlen)) n then 65%nat else bitlen in
+              else if N.ltb (N.of_nat bitlen) n && N.leb (N.of_nat (over_thr bitlen)) n then 65%nat else bitlen in
     biased_loop fuel bl max n.
 
   Definition genUintN (fuel : nat) (max : N) (bias : bool) : M (N * bool * bool) :=
